@@ -506,6 +506,10 @@ func (e *kvElection) attemptPriorityTakeover(payloadBytes []byte) error {
 	if err != nil {
 		return err
 	}
+	if entry == nil {
+		// the record went away between the failed Create and this read
+		return fmt.Errorf("priority takeover: no record to take over")
+	}
 
 	var currentPayload leadershipPayload
 	if err := json.Unmarshal(entry.Value(), &currentPayload); err != nil {
